@@ -26,7 +26,9 @@ for id in "${ids[@]}"; do
   esac
   case $id in
     C08f) prof=c06; extra=" (C08 leg over the scan workload)";;
-    C18i) prof=c18wc; extra=" (whole-client C18 leg)";;
+    C18i|C18k) prof=c18wc; extra=" (whole-client C18 leg)";;
+    C08j) prof=c17; extra=" (C08 leg over the stale-meta scenarios)";;
+    C04l) prof=c04admin; extra=" (administrative calls)";;
     C08g) prof=c20; extra=" (C08 leg over the shared-connection workload)";;
   esac
   unset RACE RACECTL
